@@ -881,8 +881,14 @@ func (w *World) soloCost(who int) (steps int64, completed bool, what string) {
 		return 0, false, ""
 	}
 	t := w.tasks[who]
+	// the aborted operation: the one whose outcome is the abort itself (an evaluation records
+	// its outcome even then), else the first one that did not finish
 	var o *Op
 	for _, c := range t.ops {
+		if c.Done && strings.Contains(c.Got, "DIVERGED") {
+			o = c
+			break
+		}
 		if !c.Done {
 			o = c
 			break
